@@ -183,7 +183,7 @@ class C16(c15.RoundTripCheck):
             text = str(instr)
         except Exception:
             text = ""
-        if stratum != "random":
+        if stratum not in ("random", "boundary"):
             keys = shape_keys(arch, instr, text, state["tier"])
             if all(self._shapes.get(k, 0) >= self._cap for k in keys):
                 res.dropped["instance beyond the per-shape cap"] += 1
